@@ -1,0 +1,15 @@
+//go:build verif && amd64
+// +build verif,amd64
+
+package gf2p16
+
+// VerifSetUseSSSE3 forces the SSSE3/non-SSSE3 dispatch flag and
+// returns the previous value.
+func VerifSetUseSSSE3(use bool) bool {
+	old := hasSSSE3
+	hasSSSE3 = use
+	return old
+}
+
+// VerifHasSSSE3 returns the current dispatch flag.
+func VerifHasSSSE3() bool { return hasSSSE3 }
